@@ -25,6 +25,7 @@ type question struct {
 	finishMsgSend chan struct{}        // closed after attempting to send the Finish message
 	called        [][]capnp.PipelineOp // paths to called clients
 	returned      bool                 // Return received with results; p may not have resolved yet
+	err           error                // set with finished if the question was canceled or returned an exception
 	result        capnp.Ptr            // valid if returned is set
 	paramCaps     map[exportID]uint32  // export references placed in the call's params
 }
@@ -84,6 +85,7 @@ func (q *question) handleCancel(ctx context.Context) {
 		return
 	}
 	q.flags |= finished
+	q.err = rejectErr
 	q.release = func() {}
 	err := q.c.sendMessage(q.c.bgctx, func(msg rpccp.Message) error {
 		fin, err := msg.NewFinish()
@@ -121,6 +123,19 @@ func (q *question) PipelineSend(ctx context.Context, transform []capnp.PipelineO
 		return capnp.ErrorAnswer(s.Method, disconnected("connection closed")), func() {}
 	}
 	defer q.c.tasks.Done()
+	if q.flags&finished != 0 && !q.returned {
+		// The question was canceled (or answered with an exception): its
+		// Finish has been sent or is about to be, after which the remote
+		// vat does not know the answer any more.  A call addressed to it
+		// now would be a protocol error that makes the remote vat abort
+		// the connection.
+		err := q.err
+		q.c.mu.Unlock()
+		if err == nil {
+			err = fail("pipelined call on a finished question")
+		}
+		return capnp.ErrorAnswer(s.Method, err), func() {}
+	}
 	if q.returned && !q.marked(transform) {
 		// The Return has been received and the capabilities in it have
 		// been set up for the pipelined calls made until then: paths that
@@ -178,6 +193,26 @@ func (q *question) PipelineSend(ctx context.Context, transform []capnp.PipelineO
 	// Send call.
 	q.c.mu.Lock()
 	q.c.lockSender()
+	if q.flags&finished != 0 && !q.returned {
+		// q was canceled while the arguments were being placed.  Its
+		// Finish may already be on the wire (it cannot overtake us from
+		// here on: it needs the sender lock), so the call must not be
+		// sent any more.
+		err := q.err
+		if err == nil {
+			err = fail("pipelined call on a finished question")
+		}
+		q.c.questions[q2.id] = nil
+		q.c.questionID.remove(uint32(q2.id))
+		rl, _ := q.c.releaseExports(q2.paramCaps)
+		q.c.mu.Unlock()
+		release()
+		q.c.mu.Lock()
+		q.c.unlockSender()
+		q.c.mu.Unlock()
+		rl.release()
+		return capnp.ErrorAnswer(s.Method, err), func() {}
+	}
 	q.c.mu.Unlock()
 	err = send()
 	release()
